@@ -8,7 +8,8 @@ out = f"/tmp/seedout_{pid}{tag}"
 rec = next(json.loads(l) for l in open("/verif/properties.jsonl") if json.loads(l)["id"] == pid)
 if not os.path.exists(wt):
     subprocess.check_call(["git", "-C", "/repo", "worktree", "add", "--detach", wt, "HEAD"])
-    subprocess.call(["cp", "-a", "/repo/target", wt + "/target"])
+    if not os.environ.get("NOCOPY"):
+        subprocess.call(["cp", "-a", "/repo/target", wt + "/target"])
 os.makedirs(out, exist_ok=True)
 t = open("/verif/lib/seed_prompt.txt").read()
 t = (t.replace("{WT}", wt).replace("{PID}", pid).replace("{pid}", pid.lower()).replace("{N}", n).replace("{OUT}", out)
@@ -23,5 +24,7 @@ for m in sorted(glob.glob(f"/verif/seeded/{pid}-*/meta.json")):
     earlier.append(f"- {first[:160]} (needs: {j['needs_to_manifest'][:200]})")
 if earlier:  # EARLIER
     t += "\n\nEarlier rounds already produced the following changes for this property; produce DIFFERENT ones (other functions, other clauses of the property, other trigger classes):\n" + "\n".join(earlier) + "\n"
+if os.environ.get("NOCOPY"):
+    t = t.replace("a warm copy of the build cache is already in", "the build cache is cold, the first build takes a few minutes, in")
 open(f"/tmp/seedprompt_{pid}{tag}.txt", "w").write(t)
 print(wt, out, f"/tmp/seedprompt_{pid}{tag}.txt")
